@@ -2932,6 +2932,22 @@ fn resolve_chord_groups(layers: &mut IntermediateLayers, s: &ParserState) -> Res
     Ok(())
 }
 
+/// True if both actions are the same nested action, i.e. they refer to the same allocation.
+/// Actions without nested actions are never "the same" here; visiting those twice is cheap.
+fn is_same_nested_action(a: &KanataAction, b: &KanataAction) -> bool {
+    use core::ptr::eq;
+    match (a, b) {
+        (Action::HoldTap(x), Action::HoldTap(y)) => eq(*x, *y),
+        (Action::OneShot(x), Action::OneShot(y)) => eq(*x, *y),
+        (Action::MultipleActions(x), Action::MultipleActions(y)) => eq(*x, *y),
+        (Action::TapDance(x), Action::TapDance(y)) => eq(*x, *y),
+        (Action::Fork(x), Action::Fork(y)) => eq(*x, *y),
+        (Action::Chords(x), Action::Chords(y)) => eq(*x, *y),
+        (Action::Switch(x), Action::Switch(y)) => eq(*x, *y),
+        _ => false,
+    }
+}
+
 fn find_chords_coords(chord_groups: &mut [ChordGroup], coord: (u8, u16), action: &KanataAction) {
     match action {
         Action::Chords(ChordsGroup { coords, .. }) => {
@@ -2962,7 +2978,11 @@ fn find_chords_coords(chord_groups: &mut [ChordGroup], coord: (u8, u16), action:
         }) => {
             find_chords_coords(chord_groups, coord, tap);
             find_chords_coords(chord_groups, coord, hold);
-            find_chords_coords(chord_groups, coord, timeout_action);
+            // A plain tap-hold stores its hold action a second time as the timeout action.
+            // Visiting the same nested action twice doubles the work at every nesting level.
+            if !is_same_nested_action(hold, timeout_action) {
+                find_chords_coords(chord_groups, coord, timeout_action);
+            }
         }
         Action::OneShot(OneShot { action: ac, .. }) => {
             find_chords_coords(chord_groups, coord, ac);
@@ -3026,7 +3046,12 @@ fn fill_chords(
         ) => {
             let new_tap = fill_chords(chord_groups, &tap, s);
             let new_hold = fill_chords(chord_groups, &hold, s);
-            let new_timeout_action = fill_chords(chord_groups, &timeout_action, s);
+            // See find_chords_coords: the copy of the hold action is rebuilt once, not twice.
+            let new_timeout_action = if is_same_nested_action(&hold, &timeout_action) {
+                new_hold
+            } else {
+                fill_chords(chord_groups, &timeout_action, s)
+            };
             if new_tap.is_some() || new_hold.is_some() || new_timeout_action.is_some() {
                 Some(Action::HoldTap(s.a.sref(HoldTapAction {
                     hold: new_hold.unwrap_or(hold),
